@@ -2041,9 +2041,10 @@ class Builder:
                     # If the request was sequential, each pair has already been
                     # measured and does not need to be freed.
                     # Otherwise: free the qubits.
+                    # (The Qubit handles stay valid: the next try uses the same IDs.)
                     if not params.sequential:
                         for q in qubits:
-                            q.free()
+                            self._build_cmds_qfree(q.qubit_id)
 
                 loop.set_cleanup_code(cleanup)
 
@@ -2081,9 +2082,10 @@ class Builder:
                     # If the request was sequential, each pair has already been
                     # measured and does not need to be freed.
                     # Otherwise: free the qubits.
+                    # (The Qubit handles stay valid: the next try uses the same IDs.)
                     if not params.sequential:
                         for q in qubits:
-                            q.free()
+                            self._build_cmds_qfree(q.qubit_id)
 
                 loop.set_cleanup_code(cleanup)
 
